@@ -359,6 +359,12 @@ class Program:
                 c2 = [b for b in cands if b.fid.endswith('::'.join(segs[-2:]))]
                 if c2:
                     cands = c2
+                else:
+                    # a qualified path only denotes a crate function when its qualifier is one of the crate's own modules
+                    # and the candidate is defined in that module (external crates such as serde_yaml are not)
+                    q = segs[-2]
+                    if q not in self.crate_modules():
+                        cands = []
             if len(cands) == 1:
                 return cands
         return []
@@ -428,6 +434,16 @@ class Program:
         if b is None:
             raise KeyError('anchor function not found: ' + fid)
         return b
+
+    def crate_modules(self):
+        cm = self.__dict__.get('_crate_modules')
+        if cm is None:
+            cm = {m['name'] for m in self.mods} | {'crate', 'self', 'super'}
+            for f in self.files:
+                stem = os.path.basename(f)[:-3]
+                cm.add(stem if stem != 'mod' else os.path.basename(os.path.dirname(f)))
+            self.__dict__['_crate_modules'] = cm
+        return cm
 
     def find_fn(self, name):
         """unique non-test fn whose id is `name` or ends with `::name` (module prefixes are printed trimmed by rustc)"""
